@@ -228,7 +228,7 @@ def tail_family(ctx):
         ctx.oblige("correspondence: tail model = real code", False, "driver not built")
 
 
-def run(ctx):
+def _run(ctx):
     rnd = ctx.rng
     id_bad, tb_bad = [], []
     treqs, treals = [], []
@@ -296,6 +296,12 @@ def run(ctx):
     else:
         ctx.oblige("correspondence: determinant model = real code", False, "driver not built")
     tail_family(ctx)
+
+
+def run(ctx):
+    from .. import scoring_common
+    with scoring_common.tie(ctx, "C02's runs"):
+        _run(ctx)
 
 
 def replay(ctx, rep):
